@@ -526,7 +526,10 @@ def w_patches(ctx, rng, i):
     if im.pixels.dtype.kind == "f" and rng.random() < 0.2:
         cval = float("nan")          # "no data" as the fill value for whatever lies outside the image
     pc = ms.PointCloud(c)
-    res = im.extract_patches(pc, patch_shape=(ph, pw), sample_offsets=offs, order=order, mode=mode, cval=cval,
+    # the patch shape in any of its documented spellings (a tuple, an array; a list just as well)
+    psk = int(rng.integers(0, 4))
+    pshape = [(ph, pw), (ph, pw), np.array([ph, pw]), [ph, pw]][psk]
+    res = im.extract_patches(pc, patch_shape=pshape, sample_offsets=offs, order=order, mode=mode, cval=cval,
                              as_single_array=bool(rng.random() < 0.8))
     integer = ck != "fractional"
     # ---- path equivalence: slicing path == resampling path (order 0, constant mode, integer centres / offsets)
